@@ -585,3 +585,37 @@ func H17Builtin() {
 	pn, en := NoDeltaTest(old, new)
 	vndAssert(pn == -1 && en == nil, "no-test-gives-no-p-value")
 }
+
+// H17Twice: asking a collection for its tables twice gives the same tables: the retained
+// values are those inside the fences, each once, however often the statistics are computed.
+func H17Twice() {
+	h17Vals, h17Next = nil, 0
+	a := vndFloat64("a")
+	vndAssume(vndAnd(a >= -1e6, a <= 1e6))
+	var olds, news []*benchfmt.Result
+	for _, v := range []float64{10, 12, 14, 16, 18, 20, a} {
+		olds = append(olds, h17Result("X", v, "ns/op"))
+	}
+	for _, v := range []float64{11, 13, 15, 17, 19, 21, 1000} {
+		news = append(news, h17Result("X", v, "ns/op"))
+	}
+	c := &Collection{DeltaTest: func(old, new *Metrics) (float64, error) { return 0.5, nil }}
+	c.AddResults("old", olds)
+	c.AddResults("new", news)
+	t1 := c.Tables()
+	if len(t1) != 1 || len(t1[0].Rows) != 1 {
+		vndAssert(false, "one-table-one-row")
+		return
+	}
+	note1 := t1[0].Rows[0].Note
+	n1 := len(t1[0].Rows[0].Metrics[0].RValues)
+	t2 := c.Tables()
+	vndReach("h17:twice")
+	vndAssert(len(t2) == 1 && len(t2[0].Rows) == 1, "one-table-one-row")
+	if len(t2) != 1 || len(t2[0].Rows) != 1 {
+		return
+	}
+	vndAssert(t2[0].Rows[0].Note == note1, "tables-computed-twice-are-the-same")
+	vndAssert(len(t2[0].Rows[0].Metrics[0].RValues) == n1, "retained-values-counted-once")
+	vndAssert(n1 <= 7, "retained-values-counted-once")
+}
